@@ -1,12 +1,43 @@
 /-
-  Line-protocol handlers for C07.  `handle` receives the tokens after the property id.
+  Line-protocol handlers for C07 (genotype → phenotype mapping is a function of the genotype).
 -/
 import GEVerif.Model.Sexp
+import GEVerif.Model.Linear
+import GEVerif.Drive.Val
 
 namespace GEVerif.Drive.C07
-open GEVerif Sexp
+open GEVerif Sexp GEVerif.Drive
+
+def parseSGE (s : Sexp) : Option SGEDna := do
+  let xs ← s.asList?
+  xs.mapM fun
+    | list [atom k, v] => do pure (k, ← v.asInts?)
+    | _ => none
+
+def parseDSGE (s : Sexp) : Option DSGEDna := do
+  let xs ← s.asList?
+  xs.mapM fun
+    | list [k, v] => do pure (← parseTy k, ← v.asInts?)
+    | _ => none
+
+def dsgeSx (d : DSGEDna) : Sexp := list (d.map fun (k, v) => list [tySx k, ofInts v])
+
+def srcPos : AnySrc → Nat
+  | .scripted s => s.pos
+  | .gene s => s.index
 
 def handle : List Sexp → Option Sexp
+  | [atom "map_ge", spec, dec, dna] => do
+      let g := analyse (← parseSpec spec)
+      pure (resSx valSx (mapGE g (← parseDecider dec) bigFuel (← dna.asInts?) true))
+  | [atom "map_sge", spec, dec, dna] => do
+      let g := analyse (← parseSpec spec)
+      pure (resSx valSx (mapSGE g (← parseDecider dec) bigFuel (← parseSGE dna) true))
+  | [atom "map_dsge", spec, maxDepth, dna, shared] => do
+      let g := analyse (← parseSpec spec)
+      let r := mapDSGE g (← maxDepth.asNat?) bigFuel (← parseDSGE dna) { draws := ← shared.asNats?, pos := 0 }
+      let st := match r with | .ok _ s => s | .err _ s => s
+      pure (list [resSx valSx r, dsgeSx st.dna, ofNat (srcPos st.src)])
   | _ => none
 
 end GEVerif.Drive.C07
